@@ -241,6 +241,10 @@ def build(desc, shuffle=False):
                         sts[i] = sub.put()
                     else:
                         sts[i] = models[i].put()
+            if desc.get("mon_early"):
+                # monitors declared BEFORE the links are made (the links then name a monitored end first or second)
+                for i in desc.get("mon", []):
+                    lk.add_structure_to_monitors(sts[i], name=f"M{i}")
             for (a, b) in conns:
                 lk.connect(sts[a[0]].pin[f"p{a[1]}"], sts[b[0]].pin[f"p{b[1]}"])
             # a component with several exposed pins may expose them in ONE call, listed against declaration order:
